@@ -437,6 +437,7 @@ func run(r *vf.Run, repo string) {
 			r.Violation("ctor:"+full+":nil-base", full+"() returns an object whose embedded "+nilAt+" is nil", charWitness(c, nil))
 			continue
 		}
+		nilFieldCheck(r, full, func() interface{} { return c.Raw() })
 		r.Count("characteristic_constructors_returning_an_object", 1)
 		r.Nontrivial("char/" + c.Name)
 		chars = append(chars, charObs{c, ch})
@@ -503,6 +504,7 @@ func run(r *vf.Run, repo string) {
 				map[string]interface{}{"constructor": full, "file": c.File, "chain": c.Chain, "nil_at": nilAt})
 			continue
 		}
+		nilFieldCheck(r, full, func() interface{} { return c.Raw() })
 		r.Count("service_constructors_returning_an_object", 1)
 		r.Nontrivial("svc/" + c.Name)
 		svcs = append(svcs, svcObs{c, s})
@@ -593,6 +595,7 @@ func run(r *vf.Run, repo string) {
 			r.Violation("ctor:"+full+":nil-base", full+"("+c.Args+") returns an object whose embedded "+nilAt+" is nil", w)
 			continue
 		}
+		nilFieldCheck(r, full, func() interface{} { return c.Raw(catalog.DefaultInfo()) })
 		r.Count("accessory_constructors_returning_an_object", 1)
 		r.Nontrivial("acc/" + c.Name)
 		var types []string
@@ -755,4 +758,18 @@ func checkService(r *vf.Run, sigPrefix, what string, s *service.Service, base ma
 		}
 	}
 	r.Distinct("characteristics_per_service", fmt.Sprint(len(s.Characteristics)))
+}
+
+// nilFieldCheck: a usable object has no nil exported object field (a field such as Camera.StreamManagement2 that a
+// user dereferences). The concrete object is walked with reflection.
+func nilFieldCheck(r *vf.Run, full string, mk func() interface{}) {
+	var obj interface{}
+	if panicked, _ := vf.Recover(func() { obj = mk() }); panicked || obj == nil {
+		return // reported by the caller already
+	}
+	r.Count("objects_walked_for_nil_fields", 1)
+	for _, path := range catalog.NilFields(obj) {
+		r.Violation("ctor:"+full+":nil-field:"+strings.TrimPrefix(path, "."), full+"() returns an object whose exported field "+strings.TrimPrefix(path, ".")+" is nil",
+			map[string]interface{}{"constructor": full, "nil_field": path})
+	}
 }
